@@ -12,6 +12,7 @@ def run(ck):
     # L1: complete greedy with the Interrupt action enabled in every loop state: TLC explores every interruption point of every input / configuration
     models.cg_mc(ck, 4, 3, 3, models.SW_SOME if q else models.SW_ALL, True, ["ResultValid", "ResultNotNone", "BestConsistent", "FirstIsLPT"], props=["Monotone"])
     models.ckk_mc(ck, 4 if q else 5, 4, 3, ["YieldsImprove", "ResultValid"])
+    models.cbldm_mc(ck, 6 if q else 7, 3, [1, 2, 7], True, ["ResultValid", "Conservation"], props=["Monotone"])
     P = scope.p_scope(ck, 4 if q else 5, 4, 3)
     ck.exhaustive = True
     stim = []
@@ -28,6 +29,12 @@ def run(ck):
             n = len(g["vals"])
             for d, dd in ((n, True), (1, False), (2, False)):
                 stim.append({"alg": "cbldm", "vals": g["vals"], "k": 2, "o": "diff", "d": d, "d_default": dd})
+    # CBLDM's unlimited run on a larger universe (its pruning and early-stop rules only interact from about 6-7 items on): the one-entry cut history
+    for g in scope.p_scope(ck, 7 if q else 8, 5, 2):
+        if g["k"] == 2 and len(g["vals"]) >= 6:
+            for dd in (1, 2):
+                stim.append({"alg": "cbldm", "vals": g["vals"], "k": 2, "o": "diff", "d": dd, "d_default": False, "final_only": True})
+    stim.append({"alg": "cbldm", "vals": [12, 4, 4, 2, 1, 1], "k": 2, "o": "diff", "d": 1, "d_default": False})
     rng = ck.rng
     for i in range(60 if q else 1500):
         n = rng.randint(4, 7)
